@@ -40,7 +40,7 @@ RULE = ("scripted introductions: NAT type of requester x of introduced peer (4x4
         "its WAN address, response only (via a fourth node), response then request, request then response} x "
         "NAT port policy {preserving, remapped} x LAN numbering drawn from all three RFC 1918 ranges incl. their edges and "
         "colliding /24s x listening ports {all 8090, distinct} x optional noise walks among candidates; plus random "
-        "histories: 3-6 hosts with random ages, 6-25 random walk/ask ops in either of two overlays, closed by an introduction of two nodes that do not know each other (oracle); plus the classes lan-collision, foreign-entry (known findings), bootstrap (blacklisted introducer), own-machine (introducer behind a box, peer on its machine), capacity (introducer at max_peers), remap-introduced / remap-requester / roam-requester (NAT mapping renewed, node moved to another public ip), churn (introducer with max_peers=-1 drops and re-verifies the peer). distinct = distinct (configuration, op list); non-trivial = at "
+        "histories: 3-6 hosts with random ages, 6-25 random walk/ask ops in either of two overlays, closed by an introduction of two nodes that do not know each other (oracle); plus the classes lan-collision, foreign-entry (known findings), bootstrap (blacklisted introducer), own-machine (introducer behind a box, peer on its machine), capacity (introducer at max_peers), remap-introduced / remap-requester / roam-requester (NAT mapping renewed, node moved to another public ip), churn (introducer with max_peers=-1 drops and re-verifies the peer), stale-estimate and lan-change (known findings 3, 4), port-reuse (a released WAN port of another peer is given to the requester). distinct = distinct (configuration, op list); non-trivial = at "
         "least one packet was dropped by a NAT filter or delivered over a LAN segment")
 TRUSTED_BASE = [
     "tools/gen_c13.py: AST translation of the address decisions of community.py (assignments, if/elif chains, list appends, tuple/attribute/index expressions); IPv4 only, isinstance(x, UDPv4Address) is translated to true",
@@ -54,7 +54,8 @@ ASSUMPTIONS = [
     "the introducer is directly reachable (public, unfiltered); it knows the introduced peer from that peer's first request, from repeated requests, from its response (the introducer was introduced to it by a fourth node and walked to it), or both ways in either order — all five histories are checked",
     "the requester's next contact attempt = a walk to every address it was handed, after the puncture has left the introduced peer's NAT",
     "IPv4, endpoint without an `interfaces` attribute (no DispatcherEndpoint: my_preferred_address() = my_estimated_wan, no interface switching)",
-    "the full statement (every prior requester state) is FALSE for the unchanged code: two known findings (known_findings.d/C13.json); the tables are for a requester that knows nobody but the introducer",
+    "the full statement (every prior state) is FALSE for the unchanged code: four known findings (known_findings.d/C13.json), not an exhaustive list; the tables are for a requester that knows nobody but the introducer",
+    "UNDISCHARGED: the Network's caches are transparent (the model has none); only get_verified_by_address after a WAN port changed hands is exercised (class port-reuse)",
 ]
 
 TYPES = ["none", "fullCone", "addrRestricted", "portRestricted"]
@@ -402,6 +403,13 @@ class World:
         self.lines.append(f"remap {i} {box} {ip2int(wan[0])} {wan[1]}")
         self.expect.append("ok")
 
+    def relan(self, i: int, box: int, lan, wan):
+        """the host moves to a network with another LAN numbering (new LAN address, box, WAN mapping)"""
+        h = self.net.hosts[i]
+        h.lan, h.box, h.wan, h.sent = lan, box, wan, []
+        self.lines.append(f"relan {i} {box} {ip2int(lan[0])} {lan[1]} {ip2int(wan[0])} {wan[1]}")
+        self.expect.append("ok")
+
     def remove_peer(self, i: int, k: int):
         """churn: node i drops peer k (what a discovery strategy does with a peer that stopped answering)"""
         nw = self.net.hosts[i].node.network
@@ -588,6 +596,10 @@ def scripted(ctx: Ctx, cfg: dict, use_model: bool, batch: list):
             else:
                 spec = lay.boxed_host(rng.choice(list(lay.boxes)))
             extras.append(w.add_host(*spec, rng.choice(TYPES)))
+        QR = None
+        if klass == "port-reuse" and w.net.hosts[R].box:
+            QR = w.add_host(*lay.boxed_host(w.net.hosts[R].box), rng.choice(TYPES))
+            extras.append(QR)
         X = w.add_host(*lay.public_host(), "none") if (cfg["history"] in ("response", "resp+req")
                                                         or klass in ("own-machine", "foreign-entry")) else None
         Q = None
@@ -607,7 +619,7 @@ def scripted(ctx: Ctx, cfg: dict, use_model: bool, batch: list):
             w.set_pref(h.idx, others)
         # the introducer's choice: the designated candidate — in a third of the cases only after the requester itself,
         # which a correct introducer never hands out (exclude=other)
-        w.set_pref(I, ([R] if cfg.get("r_first") else []) + [P] + [k for k in range(n) if k not in (P, I, R)] + [R])
+        w.set_pref(I, ([R] if cfg.get("r_first") or klass == "port-reuse" else []) + [P] + [k for k in range(n) if k not in (P, I, R)] + [R])
         iaddr = hosts[I].wan
         history = cfg["history"]
         new = cfg["style"] == "new"
@@ -705,6 +717,26 @@ def scripted(ctx: Ctx, cfg: dict, use_model: bool, batch: list):
                 w.walk(P, iaddr, s)
                 if new:
                     w.ask(P, I, s)
+            if klass == "stale-estimate" and s == 0 and hosts[P].box:
+                # P is a peer of I in overlay 1 too, roams to another public ip and is refreshed at I through overlay 1 only
+                w.walk(P, iaddr, 1)
+                w.remap(P, *new_mapping(lay, w, P, True))
+                w.walk(P, iaddr, 1)
+            if klass == "lan-change" and hosts[R].box:
+                # P moves INTO the requester's box (other LAN address there) and refreshes at I
+                nl, nw_, nb = lay.boxed_host(hosts[R].box)
+                w.relan(P, nb, nl, nw_)
+                if new and I in w.peers(P, s):
+                    w.ask(P, I, s)
+                else:
+                    w.walk(P, iaddr, s)
+            if klass == "port-reuse" and QR is not None:
+                # Q's mapping is renewed and refreshed at I; Q's OLD public port is then given to the requester
+                old = hosts[QR].wan
+                w.remap(QR, *new_mapping(lay, w, QR, False))
+                w.walk(QR, iaddr, s)
+                w.remap(R, hosts[R].box, old)
+                ctx.count("port-reuse:requester-on-released-port")
             if klass == "lan-collision" and s == 0:
                 w.walk(R, hosts[Q].wan, s)        # the requester gets to know Q (Q's response tells its LAN address)
             if klass == "foreign-entry" and s == 0:
@@ -764,12 +796,26 @@ def knows(w: World, a: int, b: int) -> bool:
 
 
 def diagnose(w: World, R: int, P: int, s: int, named: set):
+    try:
+        return _diagnose(w, R, P, s, named)
+    except (AttributeError, KeyError, TypeError):     # private Network fields renamed: no diagnosis, nothing is excused
+        return None
+
+
+def _diagnose(w: World, R: int, P: int, s: int, named: set):
     """Is the requester's address table in one of the two states for which the unchanged code is KNOWN not to connect the
     pair (known_findings.d/C13.json)?  Decided from the real Network object before the contact attempt, not from the
     outcome.  (a) an address of the introduction is also an address of ANOTHER verified peer of the requester;
     (b) an address of the introduction is already in the address table, introduced by a still-verified peer that does not
     run this overlay, through another overlay."""
-    node = w.net.hosts[R].nodes[s]
+    hr, hp = w.net.hosts[R], w.net.hosts[P]
+    pnode = hp.nodes[s]
+    if tuple(pnode.my_estimated_lan) != hp.lan:
+        return "stale-lan"       # (d) the introduced peer advertises a LAN address it no longer has
+    same = hr.box != 0 and hr.box == hp.box
+    if not same and pnode.my_estimated_wan[0] != hp.wan[0] and pnode.my_estimated_wan[0] == hr.wan[0]:
+        return "stale-wan"       # (c) its WAN estimate IN THIS OVERLAY is stale and equals the requester's public ip
+    node = hr.nodes[s]
     net = node.network
     pkey = w.e["keys"][P].pub().key_to_bin()
     for peer in net.verified_peers:
@@ -803,12 +849,21 @@ def check_scripted(ctx: Ctx, w: World, cfg: dict, R: int, P: int, I: int, ev1, e
     ctx.count(f"cfg:ports:{cfg['ports']}:{'same' if cfg['same_port'] else 'distinct'}")
 
     known_sig = {"collision": "get_walkable_addresses:address-of-another-verified-peer",
-                 "foreign": "get_walkable_addresses:entry-of-another-overlay"}.get(cause)
+                 "foreign": "get_walkable_addresses:entry-of-another-overlay",
+                 "stale-wan": "on_puncture_request:stale-wan-estimate-of-overlay",
+                 "stale-lan": "my_estimated_lan:stale-after-lan-change"}.get(cause)
+    consequences = CONSEQUENCES | {"stale-wan": {"on_puncture_request:target"},
+                                   "stale-lan": {"create_introduction_response:lan-address", "same-nat:wan-path",
+                                                 "same-nat:requester-address", "same-nat:introduced-address"}}.get(cause, set())
     ctx.count("diagnosed:" + str(cause))
+    reported = []
 
     def fail(sig, what):
-        if known_sig is not None and sig in CONSEQUENCES:
-            seen = ctx.extra.setdefault("known_finding_occurrences", {})
+        if known_sig is not None and sig in consequences:
+            if reported:
+                return                      # one report per case
+            reported.append(sig)
+            seen = ctx.extra.setdefault("known_finding_cases", {})
             seen[known_sig] = seen.get(known_sig, 0) + 1
             if seen[known_sig] > 3:
                 return
@@ -845,7 +900,8 @@ def check_scripted(ctx: Ctx, w: World, cfg: dict, R: int, P: int, I: int, ev1, e
     # (b) the addresses handed out are the introduced peer's
     if fields["wi"] != sa(hp.wan):
         fail("create_introduction_response:wan-address", f"handed-out WAN address {fields['wi']} is not the introduced peer's {sa(hp.wan)}")
-    if fields["li"] != sa(hp.lan):
+    # the LAN address is needed by a requester behind the same box; elsewhere an introducer may also withhold it
+    if fields["li"] != sa(hp.lan) and (same or fields["li"] != "0:0"):
         fail("create_introduction_response:lan-address", f"handed-out LAN address {fields['li']} is not the introduced peer's {sa(hp.lan)}")
     if (cfg["style"] == "new") != resp[-1][2].startswith("resp1"):
         ctx.count("style-mismatch")
@@ -1075,6 +1131,9 @@ CLASSES = {
     "remap-requester": (["diff", "same", "pPub"], ("old", "new")),    # requester's NAT mapping renewed while known to I
     "roam-requester": (["diff", "same", "pPub"], ("old", "new")),     # requester moves to another public ip
     "churn": (["diff", "same", "rPub"], ("old", "new")),              # unlimited introducer drops + re-verifies the peer
+    "stale-estimate": (["same"], ("old", "new")),     # known finding 3: P roams, refreshed at I through the other overlay only
+    "lan-change": (["diff", "pPub"], ("old", "new")),  # known finding 4: P moves into R's LAN, my_estimated_lan is cached
+    "port-reuse": (["diff", "same", "pPub"], ("old", "new")),   # a released WAN port of another peer is given to the requester
 }
 
 
@@ -1144,18 +1203,17 @@ def sample_trace(ctx: Ctx):
 
 def search(ctx: Ctx, reason: str):
     """implementation-only, after an obligation broke and the normal run found nothing: the tables once more with fresh
-    variants.  Bounded (about a minute) so that a failing quick run stays within a few minutes."""
-    t0 = ctx.elapsed()
+    variants.  A fixed number of cases (every class once, two histories of the table once: about a minute)."""
     lan_table_check(ctx, False, [])
     for klass, (pls, styles) in CLASSES.items():
         for cfg in table_cfgs(ctx.rng, 1, placements=pls, styles=styles, klass=klass):
             scripted(ctx, cfg, False, [])
-            if len(ctx.failures) >= 20 or ctx.elapsed() - t0 > 60:
+            if len(ctx.failures) >= 20:
                 return
-    for hist in HISTORIES:
+    for hist in ("normal", "repeat"):
         for cfg in table_cfgs(ctx.rng, 1, history=hist):
             scripted(ctx, cfg, False, [])
-            if len(ctx.failures) >= 20 or ctx.elapsed() - t0 > 60:
+            if len(ctx.failures) >= 20:
                 return
 
 
